@@ -4,5 +4,5 @@ From Coq Require Import ExtrOcamlBasic.
 From Coq Require Import List ZArith NArith.
 From Coq.Strings Require Import Byte.
 From Muduo Require Import Base_Bytes C19_Model C19_Wire C19_Sys.
-Extraction "model.ml" C19_Model.step C19_Model.step_code C19_Model.exec C19_Model.exec_code C19_Model.cstep C19_Model.cstep_code C19_Model.cexec C19_Model.cinit C19_Wire.wire_ser C19_Wire.wire_parse C19_Sys.sys_step C19_Sys.sys_init C19_Model.init C19_Model.call_labels C19_Model.events
+Extraction "model.ml" C19_Model.step C19_Model.step_code C19_Model.exec C19_Model.exec_code C19_Model.cstep C19_Model.cstep_code C19_Model.cexec C19_Model.cinit C19_Wire.wire_ser C19_Wire.wire_parse C19_Sys.sys_step C19_Sys.sys_init C19_Sys.bstep C19_Sys.binit C19_Model.init C19_Model.call_labels C19_Model.events
   Base_Bytes.xbyte_of_N Base_Bytes.xN_of_byte Base_Bytes.xanchor.
